@@ -205,6 +205,16 @@ def _run_taylor(case):
         with torch.no_grad():
             extra = solver.init_extra_solver_state(t0, y0)
             y1, _ = solver.step(t0, t0 + h, y0, extra)
+            if k == ks[0]:
+                # a step is a function of (t, y, solver state, h, increments): taken again from the very same arguments it
+                # returns the very same result (the arguments still belong to the caller - adaptive trials and restarts
+                # consume one state several times)
+                y1_again, _ = solver.step(t0, t0 + h, y0, extra)
+                if not torch.equal(y1, y1_again):
+                    return Result(nontrivial=True, checks=1, fail=Fail(
+                        "step_not_a_function_of_its_arguments",
+                        f"{label}: the same step taken twice from the same (t, y, solver state) differs by "
+                        f"{float((y1 - y1_again).abs().max()):.3e}", sig))
         I11 = 0.5 * (dW ** 2 - h)
         I111 = 0.5 * (dW ** 2 / 3 - h) * dW
         T = y0 + coef["a"] * h + coef["b"] * dW + coef["L1b"] * I11 + coef["L1a"] * U + coef["L0b"] * (dW * h - U) + \
